@@ -398,6 +398,15 @@ Delete(t, o) ==
   /\ txn' = [txn EXCEPT ![t].bufs = AddOp(@, "row", Op("del", o, 0))]
   /\ UNCHANGED <<st, used, files, dev>>
 
+SeqOfSet(S) == SetToSortSeq(S, <)
+\* DeleteAll: a delete marker for every row of the selection, in ascending order of offsets (txn.DeleteAll ranges
+\* over its selection). Value-less filler rows are kept as runs and deleted only by BulkDelete: the action is
+\* driven on selections without them.
+DeleteAll(t) ==
+  /\ txn[t].pc = "body" /\ txn[t].setup /\ txn[t].self = {}
+  /\ txn' = [txn EXCEPT ![t].bufs = FoldLeft(LAMBDA acc, o : AddOp(acc, "row", Op("del", o, 0)), txn[t].bufs, SeqOfSet(txn[t].sel))]
+  /\ UNCHANGED <<st, used, files, dev>>
+
 \* the callback returned an error
 Rollback(t) ==
   /\ txn[t].pc = "body"
@@ -693,7 +702,7 @@ SnapFail(t) ==
 (* every recorded commit whose id exceeds the stored id of its block is replayed.  Items that change       *)
 (* nothing (an empty block, a filtered commit) leave no trace and are skipped.                             *)
 
-SeqOfSet(S) == SetToSortSeq(S, <)
+
 BlockBufs(B) ==
   LET cols == {n \in DOMAIN B.cols : DOMAIN B.cols[n] # {}}
       rowb == IF B.rows = {} THEN EmptyFn ELSE ("row" :> [i \in 1..Cardinality(B.rows) |-> Op("ins", SeqOfSet(B.rows)[i], 0)])
